@@ -61,6 +61,13 @@ checks.update({
    note="Survival of a request_uri after a refused attempt and parameters that were not pushed at all are not pinned by the statement (recorded as notes)."),
 })
 
+checks.update({
+ "C07": dict(level="exploration", engine="ENUM", ref="DESIGN.md §5 C07",
+   technique="exhaustive enumeration of credential kind x lifetime source x issue offset x history position x age x exp encoding x session implementation under a virtual clock on the real provider; exhaustive override table",
+   text="21 credential kinds (code; access tokens from 8 grants incl. JWT; refresh tokens from 3 grants and unlimited; device/user code; request_uri; JWT-bearer and client assertions with int/float/fractional exp; access token used as bearer; tokens after an abandoned refresh/redemption) x 3 lifetime sources x 3 sub-second issue offsets x 2 history positions x 7 ages on both sides of expiry x 2 session implementations: >=2 s after expiry must be refused wherever presented, >=2 s before an advertised expiry must be honoured, advertised lifetime within 1 s of the effective one; GetEffectiveLifespan checked for all 12 fields x 7 grants x 4 token types.",
+   note="+-1 s around expiry is don't-care; the clock is the overlay virtual clock (all time.Now/Since/Until in ory/fosite are rewritten at build time)."),
+})
+
 # properties not (yet) claimed: reason
 not_applicable = {
 }
@@ -81,7 +88,7 @@ man = {
  "engines": [
   {"name": "HIST", "path": "h/fam.go", "serves_properties": ["C01", "C04", "C08", "C09"], "kind_free_text": "explicit-state breadth-first search over API histories of the real provider, lock-step reference model, worker subprocesses, global dedup on canonical store dump"},
   {"name": "SEQ", "path": "h/c03.go", "serves_properties": ["C03", "C16", "C17"], "kind_free_text": "exhaustive bounded enumeration of operation sequences on the real provider"},
-  {"name": "ENUM", "path": "h/c02.go h/c05.go h/c06.go h/c12.go", "serves_properties": ["C02", "C05", "C06", "C12"], "kind_free_text": "exhaustive enumeration of finite input/configuration/history-position products, each case executed on a fresh real provider and judged by an independent reference predicate"},
+  {"name": "ENUM", "path": "h/c02.go h/c05.go h/c06.go h/c07.go h/c12.go", "serves_properties": ["C02", "C05", "C06", "C07", "C12"], "kind_free_text": "exhaustive enumeration of finite input/configuration/history-position products, each case executed on a fresh real provider and judged by an independent reference predicate"},
  ],
  "checks": [],
  "notes": "All checks rebuild the instrumented harness from /repo's working tree (./verif). Violations are re-executed 5x from their artefact before being reported; known findings live in /verif/known_findings.json.",
